@@ -85,6 +85,18 @@ CHECKS["C13"] = dict(
     design_ref="DESIGN.md#c13",
 )
 
+CHECKS["C07"] = dict(
+    category="exploration",
+    text="Every single filter of every kind and every include x exclude pair over a 7-operation universe (shared and $ref'd path items, "
+    "untagged / id-less / deprecated operations, links by operationId and operationRef), through schema.include/exclude and through "
+    "the CLI's FilterArguments; observed: offered operations, selected/total statistics for operations and links, state-machine "
+    "transitions; sampled full engine runs (all phases, 2 workers, both modes) and real `st run` flags judged on the API's request log; "
+    "pytest parametrize and lazy fixtures in a pytest subprocess. Oracle: independent selection predicate over the raw document.",
+    note="Requests with undocumented methods (coverage phase) are not attributed to operations.",
+    technique="runtime monitoring: reference selection model vs observed offers, statistics, transitions and server-side request log",
+    design_ref="DESIGN.md#c07",
+)
+
 NOT_APPLICABLE = {}
 
 
